@@ -26,6 +26,7 @@ type c13Round struct {
 type c13Scenario struct {
 	Client        ClientOpts `json:"client"`
 	Rounds        []c13Round `json:"rounds"`
+	TLS           bool       `json:"tls_required,omitempty"`
 	PostConnectMs int        `json:"post_connect_callback_takes_ms,omitempty"` // the application's post-connect callback is slow: the new session can be lost while it still runs
 	LatencyNs     int64      `json:"latency_ns"`
 	Seg           int        `json:"segmentation"`
@@ -47,6 +48,13 @@ func runC13(e *Engine, g G, o RunOpt) RunInfo {
 	sc.Client.SM = g.Bool("sm")
 	sc.Client.SMResume = sc.Client.SM
 	sc.Client.KeepaliveNs = int64([]time.Duration{30 * time.Second, 5 * time.Second}[g.N("ka", 2)]) + 1
+	// sessions inside TLS, which the client insists on: a connection that drops during STARTTLS is
+	// a transient fault like any other drop
+	sc.TLS = g.Pct("tls", 20)
+	if sc.TLS {
+		sc.Client.Insecure = false
+		sc.Client.TLS = TLSCfgRoots
+	}
 	nr := g.Range("rounds", 1, 4)
 	permanent := false
 	for r := 0; r < nr && !permanent; r++ {
@@ -64,7 +72,12 @@ func runC13(e *Engine, g G, o RunOpt) RunInfo {
 			rd.LongOutage = true
 		}
 		for i := 0; i < m; i++ {
-			rd.Attempts = append(rd.Attempts, []string{"refuse", "timeout", "reset", "neg-close-header", "neg-close-auth", "neg-close-bind", "neg-error-instead-of-features"}[g.Weighted("attempt", 5, 1, 2, 2, 2, 2, 2)])
+			kinds := []string{"refuse", "timeout", "reset", "neg-close-header", "neg-close-auth", "neg-close-bind", "neg-error-instead-of-features", "neg-close-starttls", "neg-reset-in-tls-handshake"}
+			k := g.Weighted("attempt", 5, 1, 2, 2, 2, 2, 2, 2, 2)
+			if !sc.TLS && k >= 7 {
+				k = 3
+			}
+			rd.Attempts = append(rd.Attempts, kinds[k])
 		}
 		if g.Pct("permanent", 12) {
 			rd.Attempts = append(rd.Attempts, "permanent-auth")
@@ -93,6 +106,10 @@ func runC13(e *Engine, g G, o RunOpt) RunInfo {
 
 	good := func(resumeOK bool) NegScript {
 		s := DefaultNeg()
+		if sc.TLS {
+			s.StartTLS = TLSRequired
+			s.Cert = CertGood
+		}
 		s.SM = sc.Client.SM
 		if !resumeOK {
 			s.Resume = ResumeFailed
@@ -120,6 +137,10 @@ func runC13(e *Engine, g G, o RunOpt) RunInfo {
 					s.Header = HdrClose
 				case "neg-error-instead-of-features":
 					s.Header = HdrStreamError
+				case "neg-close-starttls":
+					s.TLSReply = TLSClose
+				case "neg-reset-in-tls-handshake":
+					s.Cert = CertAbort
 				case "neg-close-auth":
 					s.AuthReply = AuthClose
 				case "neg-close-bind":
@@ -210,6 +231,7 @@ func runC13(e *Engine, g G, o RunOpt) RunInfo {
 
 	e.Run(func() {
 		srv = NewServer(e, SimDomain)
+		srv.Certs = sharedCerts()
 		srv.Scripts = scripts
 		w = NewCW(e, sc.Client, sharedCerts())
 		w.CatchAll()
